@@ -24,12 +24,12 @@ from ..sim import fs_tree as T
 
 ID = "C05"
 READY = True
-LEAN_TARGETS = ["NauyacaVerif.Props.C05", "NauyacaVerif.Props.Tr.CanonicalPath"]
+LEAN_TARGETS = ["NauyacaVerif.Props.C05", "NauyacaVerif.Props.Tr.CanonicalPath", "NauyacaVerif.Props.Tr.CertProcess"]
 THEOREMS = [f"NauyacaVerif.C05.{t}" for t in (
     "c05_core", "c05_refuses", "same_canonical_path", "c05_static", "c05_static_listing", "c05_statement_fails",
     "decision_table", "lines_tie", "policy_first_match", "toml_rules_faithful", "toml_absent")]
-THEOREMS = list(THEOREMS) + ['NauyacaVerif.Translated.canonicalPath_eq']
-TRANSLATED = ['canonicalPath']
+THEOREMS = list(THEOREMS) + ['NauyacaVerif.Translated.canonicalPath_eq', 'NauyacaVerif.Translated.findRule_eq', 'NauyacaVerif.Translated.certProcess_eq']
+TRANSLATED = ['canonicalPath', 'findRule', 'certProcess']
 EXTRACT = ["mwResponses"]
 ASSUMPTIONS = [
     "the theorems cover rule prefixes ending in '/' (c05_core, c05_static); for arbitrary prefixes the statement is kept as c05_statement and is refuted by a concrete capsule (c05_statement_fails): known finding 'prefix-inside-name'",
